@@ -277,6 +277,109 @@ def rule_I11(ctx):
         raise AnalysisError("I11", "-", f"only {n} raise sites on the Roland sample path (confirmed: 3)")
 
 
+def rule_I12(ctx):
+    """history (C16): the lists an exported sample carries are its own.  (a) to_generalized builds the data-stream list anew on
+    every call (an element is exported again on the next run); (b) combine_stereo never grows, in place, a list that one of its
+    input samples still holds"""
+    from .util import call_parts as _cp12
+    n = 0
+    for path, q in ((AK + "sample.py", "AkaiSample.to_generalized"), (RO + "sample_file.py", "SampleFile.to_generalized"), ("smpl_extract/cdda/image.py", "AudioTrack.to_generalized")):
+        fn = ctx.fn(path, q, "I12")
+        vals = set()
+        for p_ in run_paths(ctx, fn, rule="I12", limit=4000):
+            if p_.end != "return":
+                continue
+            for c_, e_, st_ in calls_on(p_, name="Sample"):
+                _n, pos_, kw_ = _cp12(evaluator(ctx, fn, e_).ev(c_).key())
+                vals.add(kw_.get("data_streams"))
+        n += 1
+        fresh = bool(vals) and all(v_ is not None and (v_.startswith("[") or v_.startswith("comp(") or v_.startswith("list(") or v_.startswith("rep(")) for v_ in vals)
+        ctx.ob("I12", fn, f"{q}: the generalized sample gets a data-stream list of its own, built by this call", fresh,
+               "" if fresh else f"data_streams is `{sorted(str(v_) for v_ in vals)[0][:80]}`: every export of the element hands out the same list object", inst=f"fresh-list:{q}")
+    cb = ctx.fn("smpl_extract/generalized/sample.py", "combine_stereo", "I12")
+    from .sem import record_fields
+    nn = cb.args.args[2].arg if len(cb.args.args) > 2 else None
+    ok, det = True, ""
+    for assume_val in (True, False):
+        r_ = record_fields(cb, lambda t, a=assume_val: a if nn and t in (f"{nn} is not None",) else ((not a) if nn and t == f"{nn} is None" else None))
+        if r_ is None:
+            raise AnalysisError("I12", where(cb), "combine_stereo: how the result's fields are produced is not understood (unrecognised form)")
+        shared = r_[0].get("__iadd_on_shared__") or []
+        if shared:
+            ok, det = False, f"`{shared[0]}` of the result is the left sample's own list (shallow copy) and is extended in place: the left element keeps the extra streams for the next export"
+    params = [a_.arg for a_ in cb.args.args[:2]]
+    for x_ in own_nodes(cb):
+        tgt = None
+        if isinstance(x_, ast.AugAssign) and isinstance(x_.target, ast.Attribute):
+            tgt = x_.target.value
+        elif isinstance(x_, ast.Call) and isinstance(x_.func, ast.Attribute) and x_.func.attr in ("append", "extend", "insert", "pop", "remove", "clear", "sort", "reverse") and isinstance(x_.func.value, ast.Attribute):
+            tgt = x_.func.value.value
+        elif isinstance(x_, ast.Assign) and any(isinstance(t_, ast.Attribute) and isinstance(t_.value, ast.Name) and t_.value.id in params for t_ in x_.targets):
+            tgt = next(t_.value for t_ in x_.targets if isinstance(t_, ast.Attribute) and isinstance(t_.value, ast.Name) and t_.value.id in params)
+        if isinstance(tgt, ast.Name) and tgt.id in params:
+            ok, det = False, f"`{norm(x_)[:60]}` changes the input sample `{tgt.id}` itself"
+    ctx.ob("I12", cb, "combine_stereo leaves the two samples it merges as they were (the merged lists are copies)", ok, det, inst="combine-no-alias")
+    # (c) a chain walk hands out a list of its own: created by the call, not kept on the table object
+    gp = ctx.fn("smpl_extract/util/fat.py", "FileAllocationTable.get_path", "I12")
+    rets = [r_ for r_ in own_nodes(gp) if isinstance(r_, ast.Return) and r_.value is not None]
+    okc, detc = bool(rets), "no return"
+    for r_ in rets:
+        if not isinstance(r_.value, ast.Name):
+            okc, detc = False, f"returns `{norm(r_.value)[:60]}`, not a list built by this call"
+            continue
+        nm_ = r_.value.id
+        defs_ = [a_ for a_ in own_nodes(gp) if isinstance(a_, (ast.Assign, ast.AnnAssign)) and norm(a_.targets[0] if isinstance(a_, ast.Assign) else a_.target) == nm_]
+        if not defs_ or not all(isinstance(a_.value, (ast.List, ast.ListComp)) or (isinstance(a_.value, ast.Call) and norm(a_.value.func) == "list") for a_ in defs_):
+            okc, detc = False, f"`{nm_}` is not always a list created in the call"
+        kept = [a_ for a_ in own_nodes(gp) if isinstance(a_, ast.Assign) and any((dotted(t_) or norm(t_)).startswith("self.") for t_ in a_.targets)
+                and any(isinstance(x_, ast.Name) and x_.id == nm_ for x_ in ast.walk(a_.value))]
+        kept += [c_ for c_ in own_nodes(gp) if isinstance(c_, ast.Call) and isinstance(c_.func, ast.Attribute) and norm(c_.func.value).startswith("self.")
+                 and c_.func.attr in ("append", "setdefault", "update", "__setitem__", "add") and any(isinstance(x_, ast.Name) and x_.id == nm_ for a2_ in c_.args for x_ in ast.walk(a2_))]
+        if kept:
+            okc, detc = False, f"the returned list is also kept on the table (`{norm(kept[0])[:60]}`): every caller shares one list object"
+    ctx.ob("I12", gp, "get_path returns a list of its own making and keeps no reference to it", okc, "" if okc else detc, inst="get_path-fresh")
+    # (d) nobody changes, in place, a list another method handed back
+    hits = _foreign_list_mutations(ctx.prog.all_functions())
+    ctx.ob("I12", hits[0][2] if hits else gp, "a list returned by another method is not changed in place (del / item assignment / append ... on it)", not hits,
+           "" if not hits else f"{hits[0][0]}: `{hits[0][1]}`", inst="no-foreign-mutation")
+    # positive control: the rule recognises the shape it forbids
+    ctl = ast.parse("class T:\n    def f(self, i, k):\n        xs = self.get_path(i)\n        del xs[:k]\n        return xs\n")
+    for n_ in ast.walk(ctl):
+        for ch_ in ast.iter_child_nodes(n_):
+            ch_._parent = n_
+    cfn = ctl.body[0].body[0]
+    if not _foreign_list_mutations([(None, "T.f", cfn)]):
+        raise AnalysisError("I12", "positive-control", "in-place change of a returned list is not recognised")
+
+
+_MUTATORS = ("append", "extend", "insert", "pop", "remove", "clear", "sort", "reverse")
+
+
+def _foreign_list_mutations(functions):
+    out = []
+    for m, q, fn in functions:
+        defs = {}
+        for a in own_nodes(fn):
+            if isinstance(a, ast.Assign) and len(a.targets) == 1 and isinstance(a.targets[0], ast.Name):
+                defs.setdefault(a.targets[0].id, []).append(a.value)
+        for x in own_nodes(fn):
+            nm = None
+            if isinstance(x, ast.Call) and isinstance(x.func, ast.Attribute) and x.func.attr in _MUTATORS and isinstance(x.func.value, ast.Name):
+                nm = x.func.value.id
+            elif isinstance(x, ast.Delete):
+                nm = next((t.value.id for t in x.targets if isinstance(t, ast.Subscript) and isinstance(t.value, ast.Name)), None)
+            elif isinstance(x, ast.Assign):
+                nm = next((t.value.id for t in x.targets if isinstance(t, ast.Subscript) and isinstance(t.value, ast.Name)), None)
+            if nm is None or nm not in defs:
+                continue
+            for v in defs[nm]:
+                if isinstance(v, ast.Call) and isinstance(v.func, ast.Attribute) and v.func.attr not in ("copy", "deepcopy", "tolist", "split", "splitlines", "readlines", "keys", "values", "items") \
+                        and not (isinstance(v.func.value, ast.Name) and v.func.value.id in ("np", "numpy", "copy", "re")) \
+                        and isinstance(v.func.value, (ast.Name, ast.Attribute)):
+                    out.append((q, norm(x)[:80], x))
+    return out
+
+
 def rule_I1(ctx):
     """a swallowed parse error of one record does not change where / whether the other records are read"""
     # (a) AKAI file table
